@@ -75,6 +75,9 @@ def run_plan(plan, props, want_history=False):
         'signature': abstract_signature(world),
         'nontrivial': is_nontrivial(world),
         'frames': len([1 for e in world.history if e['k'] == 'wire']),
+        # exceptions inside the harness's own callbacks (executor boot, scripted actions): the scenario did not run as planned
+        # - typically a plan that shrinking has made invalid; the shrinker rejects such candidates
+        'harness_exc': len([e for e in world.history if e['k'] == 'loopexc' and 'sim/exec_' in (e.get('message') or '')]),
         'connected_iter': next((e['it'] for e in world.history if e['k'] == 'act' and e.get('what') == 'connected'), None),
         'spans': _interaction_spans(world),
     }
